@@ -332,7 +332,9 @@ func c11(c *an.Ctx) {
 			}
 			// errors precede slicing
 			blk := an.NewBlocker()
-			for _, ci := range an.CondIfs(fn, func(v ssa.Value) bool { return strings.Contains(an.Expr(v), "safeInt64Ptr(") && strings.HasSuffix(an.Expr(v), " < 0)") }) {
+			for _, ci := range an.CondIfs(fn, func(v ssa.Value) bool {
+				return strings.Contains(an.Expr(v), "safeInt64Ptr(") && strings.HasSuffix(an.Expr(v), " < 0)")
+			}) {
 				blk.AddEdge(ci.If.Block(), ci.False)
 			}
 			if len(blk.Edge) < 2 || an.Reach(fn, nil, blk)[i] {
